@@ -350,7 +350,7 @@ class Setup:
             # sometimes ANOTHER miner process asks for work between this candidate's request and its hit, after the pool has grown:
             # the block found is still the one the first process was given
             self.pool_grew_after_request = False
-            if self.rng.random() < 0.3:
+            if self.rng.random() < getattr(self.mon, "other_miner_prob", 0.3):
                 grew = self.fill_pool(self.rng.choice([1, 2]))
                 while len(mw.send_queues) < 2:
                     mw.send_queues.append(StubQueue())
